@@ -18,6 +18,7 @@ import (
 	"sort"
 	"strconv"
 	"strings"
+	"sync"
 	"sync/atomic"
 	"time"
 
@@ -740,7 +741,7 @@ func (c *admCase) doOp(op string) string {
 		c.cur = s
 		c.startShell(s, true)
 		if f[0] == "ap" {
-			s.conn.feed(rtspRequest("ANNOUNCE", stream(1), q, 1, admSdp))
+			s.conn.feed(rtspRequest("ANNOUNCE", stream(1), q, 1, admSdpOf(name)))
 		} else {
 			s.conn.feed(rtspRequest("DESCRIBE", stream(1), q, 1, ""))
 		}
@@ -748,6 +749,9 @@ func (c *admCase) doOp(op string) string {
 		c.cur = nil
 		switch r {
 		case "idle":
+			if f[0] == "ap" {
+				c.waitSdpOf(stream(1), name)
+			}
 			return "a"
 		case "done":
 			s.refused = true
@@ -773,7 +777,7 @@ func (c *admCase) doOp(op string) string {
 		c.sess[name] = s
 		c.cur = s
 		if f[0] == "ap2" {
-			s.conn.feed(rtspRequest("ANNOUNCE", stream(1), q, 3, admSdp))
+			s.conn.feed(rtspRequest("ANNOUNCE", stream(1), q, 3, admSdpOf(name)))
 		} else {
 			s.conn.feed(rtspRequest("DESCRIBE", stream(1), q, 3, ""))
 		}
@@ -781,6 +785,9 @@ func (c *admCase) doOp(op string) string {
 		c.cur = nil
 		switch r {
 		case "idle":
+			if f[0] == "ap2" {
+				c.waitSdpOf(stream(1), name)
+			}
 			return "a"
 		case "done":
 			s.refused = true
@@ -892,12 +899,9 @@ func (c *admCase) doOp(op string) string {
 		r := c.rtpPubResult(name, stream(1), resp)
 		if resp.ErrorCode == base.ErrorCodeSucc {
 			sec, _ := c.sm.VerifPsPubTimeoutSec(stream(1))
-			// is the session listening on tcp?  then the port cannot be bound a second time
 			tcp := "0"
-			if l, err := net.Listen("tcp", ":"+strconv.Itoa(resp.Data.Port)); err != nil {
+			if isTcp, _ := c.sm.VerifPsPubIsTcp(stream(1)); isTcp {
 				tcp = "1"
-			} else {
-				_ = l.Close()
 			}
 			r += "~" + strconv.Itoa(int(sec)) + ":" + tcp
 		}
@@ -1021,7 +1025,10 @@ func (c *admCase) doOp(op string) string {
 			return "0:" + c.nameOfKey(resp.Data.SessionId)
 		}
 		return strconv.Itoa(resp.ErrorCode)
-	case "psucc", "pfail", "pdone": // outcome of attempt p<stream>_<i>: psucc.<stream>.<i>
+	case "sdp": // whose SDP does the group of <stream> hold: sdp.<stream>
+		return c.sdpOwner(stream(1))
+	case "psucc", "psuccm", "pfail", "pdone": // outcome of attempt p<stream>_<i>: psucc.<stream>.<i>
+		// psuccm: the origin sends one audio message (and a ping request) in the same write as its answer to play
 		ai := f[2]
 		if ai == "0" { // the latest attempt of that stream
 			ai = strconv.Itoa(c.attCount[stream(1)])
@@ -1032,28 +1039,43 @@ func (c *admCase) doOp(op string) string {
 		}
 		from := c.nseen
 		switch f[0] {
-		case "psucc":
+		case "psucc", "psuccm":
 			if a.state != "held" {
 				return "x"
 			}
+			withMedia := f[0] == "psuccm"
 			a.state = "released"
 			a.odone = make(chan struct{})
 			played := make(chan struct{})
+			before := c.flvWritten()
+			var cork *admCorkConn
 			if a.rtsp {
-				go func(conn net.Conn, done chan struct{}) {
+				go func(conn net.Conn, done chan struct{}, sdp string) {
 					defer close(done)
-					admRtspOrigin(conn, played)
-				}(a.conn, a.odone)
+					admRtspOrigin(conn, played, sdp)
+				}(a.conn, a.odone, admSdpOf(a.name))
 			} else {
+				oconn := a.conn
+				if withMedia {
+					cork = &admCorkConn{Conn: a.conn}
+					oconn = cork
+				}
 				go func(conn net.Conn, done chan struct{}) {
 					defer close(done)
 					c.originSrv.VerifHandleTcpConnect(conn)
-				}(a.conn, a.odone)
+				}(oconn, a.odone)
 				// the origin sees the play request
 				select {
 				case a.origin = <-c.originObs.ch:
 				case <-time.After(admWaitDur()):
 					return "timeout-origin"
+				}
+				if cork != nil {
+					// the answer to play is held back: it leaves in ONE write together with an audio message and a ping request
+					ping := rtmpCmd(2, base.RtmpTypeIdUserControl, 0, []byte{0, base.RtmpUserControlPingRequest, 0, 0, 0, 1})
+					if err := cork.flush(append(rtmpAudioMsg(40), ping...)); err != nil {
+						return "err-origin-write"
+					}
 				}
 			}
 			ev, ok := c.nh.waitPull(from, a.stream)
@@ -1078,8 +1100,26 @@ func (c *admCase) doOp(op string) string {
 				} else if v, ok := c.viewOf(a.stream); ok {
 					a.sess = v.RtmpPullSession
 				}
+				if cork != nil {
+					// the pull session answers the ping request once it has handled the audio message in front of it
+					deadline := time.Now().Add(admWaitDur())
+					for cork.readAfterFlush() == 0 {
+						if time.Now().After(deadline) {
+							c.anomalies = append(c.anomalies, "pull-ping-timeout")
+							break
+						}
+						time.Sleep(50 * time.Microsecond)
+					}
+				}
 			} else {
 				a.state = "finished"
+				if cork != nil {
+					// the session was disposed; whatever its read loop still does with bytes it holds happens at once
+					time.Sleep(3 * time.Millisecond)
+				}
+			}
+			if withMedia {
+				return a.name + "~m" + strings.Join(c.flvGrown(before), "+")
 			}
 		case "pfail":
 			if a.state != "held" {
@@ -1332,6 +1372,111 @@ func (c *admCase) kickResult(name, st, key string, resp base.ApiCtrlKickSessionR
 	return strconv.Itoa(resp.ErrorCode)
 }
 
+// ---------------------------------------------------------------------------
+// what of an input's content reaches the group
+
+// every RTSP input has an SDP of its own: the session name line carries the harness name of the input
+func admSdpOf(name string) string {
+	return strings.Replace(admSdp, "s=No Name", "s="+name, 1)
+}
+
+// the input whose SDP the group of a stream holds: its harness name, "-" for none
+func (c *admCase) sdpOwner(stream string) string {
+	raw, ok := c.sm.VerifRawSdp(stream)
+	if !ok {
+		return "-"
+	}
+	for _, l := range strings.Split(string(raw), "\r\n") {
+		if strings.HasPrefix(l, "s=") {
+			return l[2:]
+		}
+	}
+	return "?"
+}
+
+// an accepted RTSP publisher hands its SDP to the group on a goroutine of its own (BaseInSession.SetObserver)
+func (c *admCase) waitSdpOf(stream, name string) {
+	deadline := time.Now().Add(admWaitDur())
+	for c.sdpOwner(stream) != name {
+		if time.Now().After(deadline) {
+			c.anomalies = append(c.anomalies, "sdp-never-delivered")
+			return
+		}
+		time.Sleep(50 * time.Microsecond)
+	}
+}
+
+func (c *admCase) flvWritten() map[string]int {
+	m := map[string]int{}
+	for n, t := range c.sess {
+		if t.kind == "fs" && t.conn != nil {
+			m[n] = t.conn.written()
+		}
+	}
+	return m
+}
+
+// the http-flv subscribers that were written to since before
+func (c *admCase) flvGrown(before map[string]int) []string {
+	var got []string
+	for n, t := range c.sess {
+		if t.kind == "fs" && t.conn != nil && t.conn.written() > before[n] {
+			got = append(got, n)
+		}
+	}
+	sort.Strings(got)
+	return got
+}
+
+// admCorkConn is the origin's side of a relay-pull connection: from the answer to the play request on, what the
+// origin writes is held back until flush, which sends it together with more bytes in a single write.
+type admCorkConn struct {
+	net.Conn
+	mu      sync.Mutex
+	corked  bool
+	flushed bool
+	held    []byte
+	after   int // bytes read from the pull session after the flush
+}
+
+func (k *admCorkConn) Write(b []byte) (int, error) {
+	k.mu.Lock()
+	if !k.flushed && (k.corked || bytes.Contains(b, []byte("NetStream.Play.Start"))) {
+		k.corked = true
+		k.held = append(k.held, b...)
+		k.mu.Unlock()
+		return len(b), nil
+	}
+	k.mu.Unlock()
+	return k.Conn.Write(b)
+}
+
+func (k *admCorkConn) Read(b []byte) (int, error) {
+	n, err := k.Conn.Read(b)
+	k.mu.Lock()
+	if k.flushed {
+		k.after += n
+	}
+	k.mu.Unlock()
+	return n, err
+}
+
+func (k *admCorkConn) flush(extra []byte) error {
+	k.mu.Lock()
+	data := append(k.held, extra...)
+	k.held = nil
+	k.flushed = true
+	k.mu.Unlock()
+	_, err := k.Conn.Write(data)
+	return err
+}
+
+func (k *admCorkConn) readAfterFlush() int {
+	k.mu.Lock()
+	defer k.mu.Unlock()
+	return k.after
+}
+
 func admReason(desp string) string {
 	switch {
 	case strings.Contains(desp, "already exist"):
@@ -1374,7 +1519,7 @@ func admWaitAny(a, b *admListener) (net.Conn, bool, bool) {
 // admRtspOrigin is the stub origin for an rtsp:// relay pull on an accepted connection: it answers
 // OPTIONS, DESCRIBE (with an SDP), SETUP (interleaved) and PLAY and then keeps the connection open
 // until it is closed from either side.  played is closed once PLAY has been answered.
-func admRtspOrigin(conn net.Conn, played chan struct{}) {
+func admRtspOrigin(conn net.Conn, played chan struct{}, sdp string) {
 	r := bufio.NewReader(conn)
 	done := false
 	for {
@@ -1409,7 +1554,7 @@ func admRtspOrigin(conn net.Conn, played chan struct{}) {
 			fmt.Fprintf(conn, "RTSP/1.0 200 OK\r\nCSeq: %s\r\nPublic: OPTIONS, DESCRIBE, SETUP, PLAY, TEARDOWN\r\n\r\n", cseq)
 		case "DESCRIBE":
 			fmt.Fprintf(conn, "RTSP/1.0 200 OK\r\nCSeq: %s\r\nContent-Type: application/sdp\r\nContent-Length: %d\r\n\r\n%s",
-				cseq, len(admSdp), admSdp)
+				cseq, len(sdp), sdp)
 		case "SETUP":
 			fmt.Fprintf(conn, "RTSP/1.0 200 OK\r\nCSeq: %s\r\nSession: 1\r\nTransport: %s\r\n\r\n", cseq, transport)
 		case "PLAY":
